@@ -10,7 +10,7 @@ func init() {
 
 // VerifHarness_C03: tainting keeps >= min_nodes untainted; below the minimum
 // nothing is tainted and capacity is restored (untaint first, then cloud).
-// shape: [nodes, pods, failure budget, auto-discovery(0/1), class menu, prior scan (0/1)]
+// shape: [nodes, pods, failure budget, auto-discovery(0/1), class menu, prior scan (0/1), built by NewController with the cloud limits changing after start-up (0/1)]
 func VerifHarness_C03() {
 	N, P, F, auto, menu := verifShape(0), verifShape(1), verifShape(2), verifShape(3), verifShape(4)
 	w := newWorld(F)
@@ -34,8 +34,13 @@ func VerifHarness_C03() {
 	verifAssume(o.SlowNodeRemovalRate <= o.FastNodeRemovalRate)
 	prior := verifShape(5) == 1
 	classes := [][]int{{tcNone, tcEsc}, {tcNone, tcEsc, tcForce, tcEscGarbage}}[menu]
+	prod := verifShape(6) == 1 // controller assembled by the real NewController (auto-discovery happens there first); the cloud group's limits change afterwards
 	var g int
-	if !prior {
+	if prod {
+		g = w.addGroup(o, 0, int64(N)+3, extra)
+		w.symNodes("", g, N, classes, true, []int{0}, false)
+		w.symPods("", g, P, 2, false, -3*w.cpuPerNode, false)
+	} else if !prior {
 		g = w.addGroup(o, asgMin, asgMax, extra)
 		w.symNodes("", g, N, classes, true, []int{0}, false)
 		w.symPods("", g, P, 2, false, -3*w.cpuPerNode, false)
@@ -51,7 +56,12 @@ func VerifHarness_C03() {
 	// AWS keeps min <= desired <= max
 	verifAssume(verifAnd(asgMin <= asg.Desired, asg.Desired <= asgMax))
 	desired := asg.Desired
-	w.build()
+	if prod {
+		w.buildProduction()
+		asg.Min, asg.Max = asgMin, asgMax
+	} else {
+		w.build()
+	}
 	if prior {
 		_ = w.ctrl.RunOnce()
 		asg.Min, asg.Max = asgMin, asgMax
